@@ -39,6 +39,15 @@ pub(crate) fn verify_membership<TC: Configuration>(
     root_hash: Digest,
     proof: &MembershipProof,
 ) -> Result<(), VerificationError> {
+    // With no sibling proofs the label is never hashed, so the proof can only speak
+    // about the root node itself
+    if proof.sibling_proofs.is_empty() && proof.label != NodeLabel::root() {
+        return Err(VerificationError::MembershipProof(format!(
+            "Membership proof for label {:?} has no sibling proofs",
+            proof.label
+        )));
+    }
+
     let mut curr_val = proof.hash_val;
     let mut curr_label = proof.label;
 
